@@ -1,23 +1,62 @@
 ------------------------------ MODULE ResTrace ------------------------------
-(* Judge of resource observations taken at quiescent points of real sessions and of library object life cycles (C19). *)
+(* Trace specification for C19: the hook events of real sessions (open, install, compact.merged, reflect.done, close.begin,
+   close.flusher, close.done) drive the actions of Resources.tla - an event whose action is not enabled is rejected - and every
+   observation of the real process (descriptors, mappings under the database directory, goroutines inside the module, live tables),
+   taken at quiescent points, is compared with the model state.  Library object life cycles are judged by their own observations. *)
 EXTENDS Resources, Json, IOUtils
 Trace == ndJsonDeserialize(IOEnv.TRACE)
-VARIABLES l, bad, nok, cs
-tvars == <<phase, tables, handles, threads, cycles, l, bad, nok, cs>>
-TInit == phase = "closed" /\ tables = 0 /\ handles = 0 /\ threads = 0 /\ cycles = 0 /\ l = 1 /\ bad = <<>> /\ nok = 0 /\ cs = -1
+VARIABLES l, bad, nok, cs, dead
+tvars == <<vars, l, bad, nok, cs, dead>>
+TInit == Init /\ l = 1 /\ bad = <<>> /\ nok = 0 /\ cs = -1 /\ dead = FALSE
 Ev == Trace[l]
-Check == CASE Ev.t = "obs" -> IF ObsOk(Ev.open, Ev.tables, Ev.fds, Ev.maps, Ev.gor, 4) THEN "ok"
-                              ELSE IF Ev.open THEN "handles-not-bounded-by-live-tables" ELSE "not-released-by-close"
-           [] Ev.t = "libobs" -> IF Ev.closed /\ (Ev.fds # 0 \/ Ev.maps # 0) THEN "library-object-not-released-by-close"
-                                 ELSE IF ~Ev.closed /\ Ev.fds + Ev.maps > Ev.bound THEN "library-object-handles-grow" ELSE "ok"
-           [] Ev.t = "reopen" -> IF Ev.err # "" THEN "directory-not-reusable-after-close" ELSE "ok"
-           [] Ev.t = "bgfail" -> "background-failure"
-           [] OTHER -> "ok"
-Step == /\ l <= Len(Trace) /\ l' = l + 1 /\ UNCHANGED <<phase, tables, handles, threads, cycles>>
-        /\ IF Ev.t = "reset" THEN cs' = Ev.case /\ UNCHANGED <<bad, nok>>
-           ELSE /\ UNCHANGED cs
-                /\ LET c == Check IN IF c = "ok" THEN nok' = nok + 1 /\ UNCHANGED bad
-                                     ELSE bad' = Append(bad, [case |-> cs, line |-> l, clause |-> c, ev |-> ToString(Ev)]) /\ UNCHANGED nok
+Consume == l' = l + 1
+Good == nok' = nok + 1 /\ UNCHANGED <<bad, dead>>
+Bad(c) == bad' = Append(bad, [case |-> cs, line |-> l, clause |-> c, ev |-> ToString(Ev)]) /\ UNCHANGED nok
+\* after a rejected model step the model state of this case means nothing any more: only the observations are judged until the next reset
+Reject(c) == Bad(c) /\ dead' = TRUE /\ UNCHANGED vars
+ObsClause == IF Ev.open
+             THEN IF ~dead /\ phase # "open" THEN "observed-open-but-model-is-not"
+                  ELSE IF ~dead /\ compactor = "none" /\ Ev.tables # tables THEN "table-count-differs-from-model"
+                  ELSE IF ~ObsOk(TRUE, Ev.tables, Ev.fds, Ev.maps, Ev.gor, 4) THEN "handles-not-bounded-by-live-tables"
+                  ELSE IF ~dead /\ compactor = "none" /\ (Ev.maps # tableH \/ Ev.fds # walH) THEN "handles-differ-from-model"
+                  ELSE "ok"
+             ELSE IF ~ObsOk(FALSE, 0, Ev.fds, Ev.maps, Ev.gor, 0) THEN "not-released-by-close"
+                  ELSE IF ~dead /\ (phase # "closed" \/ handles # 0 \/ threads # 0) THEN "model-not-closed-at-closed-observation"
+                  ELSE "ok"
+LibClause == IF Ev.closed /\ (Ev.fds # 0 \/ Ev.maps # 0) THEN "library-object-not-released-by-close"
+             ELSE IF ~Ev.closed /\ Ev.fds + Ev.maps > Ev.bound THEN "library-object-handles-grow" ELSE "ok"
+Judge(c) == IF c = "ok" THEN Good ELSE Bad(c) /\ UNCHANGED dead
+\* the return statement of Close (no hook): release, silently, before the next line is looked at
+Silent == /\ phase = "joined" /\ ~dead /\ CloseRelease /\ UNCHANGED <<l, bad, nok, cs, dead>>
+Line ==
+  /\ l <= Len(Trace) /\ (phase = "joined" => dead) /\ Consume
+  /\ CASE Ev.t = "reset" -> /\ cs' = Ev.case /\ dead' = FALSE /\ UNCHANGED <<bad, nok>>
+                            /\ phase' = "closed" /\ tables' = 0 /\ tableH' = 0 /\ walH' = 0 /\ flusher' = FALSE /\ compactor' = "none"
+                            /\ csel' = 0 /\ released' = FALSE /\ cycles' = 0
+       [] Ev.t = "obs" -> UNCHANGED <<vars, cs>> /\ Judge(ObsClause)
+       [] Ev.t = "libobs" -> UNCHANGED <<vars, cs>> /\ Judge(LibClause)
+       [] Ev.t = "reopen" -> UNCHANGED <<vars, cs>> /\ Judge(IF Ev.err # "" THEN "directory-not-reusable-after-close" ELSE "ok")
+       [] Ev.t = "bgfail" -> UNCHANGED <<vars, cs>> /\ Judge("background-failure")
+       [] dead /\ Ev.t \notin {"reset", "obs", "libobs", "reopen", "bgfail"} -> UNCHANGED <<vars, cs, bad, nok, dead>>
+       [] ~dead /\ Ev.t = "open" ->
+            \* recovery decides how many tables there are (logged); everything else is Open(bg)
+            UNCHANGED cs /\ IF phase = "closed"
+                            THEN /\ phase' = "open" /\ tables' = Ev.tables /\ tableH' = Ev.tables /\ walH' = 1 /\ flusher' = TRUE
+                                 /\ compactor' = (IF Ev.bg THEN "idle" ELSE "none") /\ released' = FALSE /\ csel' = 0 /\ cycles' = 0 /\ Good
+                            ELSE Reject("open-not-enabled")
+       [] ~dead /\ Ev.t = "install" -> UNCHANGED cs /\ IF ENABLED Flush THEN Flush /\ Good ELSE Reject("flush-install-not-enabled")
+       [] ~dead /\ Ev.t = "compact.merged" ->
+            UNCHANGED cs /\ IF compactor = "none" THEN UNCHANGED vars /\ Good     \* manual cycle: one step at reflect.done
+                            ELSE IF ENABLED CompStart(Ev.ninputs) THEN CompStart(Ev.ninputs) /\ Good ELSE Reject("compaction-merge-not-enabled")
+       [] ~dead /\ Ev.t = "reflect.done" ->
+            UNCHANGED cs /\ IF compactor = "none"
+                            THEN IF ENABLED Compact(Ev.ninputs) THEN Compact(Ev.ninputs) /\ Good ELSE Reject("compaction-not-enabled")
+                            ELSE IF ENABLED CompReflect /\ csel = Ev.ninputs THEN CompReflect /\ Good ELSE Reject("compaction-reflect-not-enabled")
+       [] ~dead /\ Ev.t = "close.begin" -> UNCHANGED cs /\ IF ENABLED CloseLock THEN CloseLock /\ Good ELSE Reject("close-not-enabled")
+       [] ~dead /\ Ev.t = "close.flusher" -> UNCHANGED cs /\ IF ENABLED CloseFlusherJoined THEN CloseFlusherJoined /\ Good ELSE Reject("close-flusher-join-not-enabled")
+       [] ~dead /\ Ev.t = "close.done" -> UNCHANGED cs /\ IF ENABLED CloseJoin THEN CloseJoin /\ Good ELSE Reject("close-compactor-join-not-enabled")
+       [] OTHER -> UNCHANGED <<vars, cs, bad, nok, dead>>
+Step == Silent \/ Line
 TSpec == TInit /\ [][Step]_tvars
 Report == (l = Len(Trace) + 1) => PrintT(<<"VERDICT", nok, ToJson(bad)>>)
 =============================================================================
